@@ -140,6 +140,9 @@ def correspondence(ctx, model_ok=True):
         for t in chunk:
             L.append("print(%s);" % (t if not t.endswith(".") else "(" + t[:-1] + ")"))
             L.append("print(\"%s\".to_num());" % t)
+            # the literal written IN PLACE in every text-producing position: all must be the text `print` gives for it
+            lt = t if not t.endswith(".") else "(" + t[:-1] + ")"
+            L.append("print(\"${%s}|${ %s }|a${%s}b|\" + String.from(%s) + \"|${(%s)}|${%s + 0}\");" % (lt, lt, lt, lt, lt, lt))
         prog_list.append(("text%d" % i, "\n".join(L) + "\n", {}))
         meta.append(("text", chunk))
     tn = gen_to_num_texts(rng.fork("tonum"), 6000 if ctx.thorough else 5000)
@@ -191,8 +194,11 @@ def correspondence(ctx, model_ok=True):
                 tonum_real.append(shown)
         else:
             for j, t in enumerate(chunk):
-                lit, conv = printed[2 * j:2 * j + 2]
+                lit, conv, routes = printed[3 * j:3 * j + 3]
                 compared += 1
+                if routes != "%s|%s|a%sb|%s|%s|%s" % (lit, lit, lit, lit, lit, lit):
+                    failures.append({"what": "decimal text %r written in place: print gives %r, the interpolations / String.from / parenthesised / summed forms give %r" % (t, lit, routes),
+                                     "text": t, "program": "print(%s); print(\"${%s}\"); print(String.from(%s));" % (t, t, t), "signature": "literal in place formats differently", "failing_input": True})
                 x = float(t)
                 exp = ref.fmt_num(x)
                 # (where two shortest texts are equally close, formatters may differ in the last digit: compare the numbers denoted)
